@@ -14,7 +14,11 @@ Record airlog := mkLog {
   l_from : nat; l_addr : list N; l_data : list N; l_noack : bool;
   l_attempts : N; l_ok : bool; l_receivers : list (nat * N) }.
 
-Record world := mkWorld { radios : list radio; oracle : list fate; air : list airlog }.
+(* clock: virtual nanoseconds; every SPI transfer costs SPI_COST, reading the clock costs
+   NOW_COST (so that polling loops with a deadline terminate), sleeping adds its argument *)
+Record world := mkWorld { radios : list radio; oracle : list fate; air : list airlog; clock : N }.
+Definition SPI_COST : N := 10000.
+Definition NOW_COST : N := 1000.
 
 Definition get_radio (w : world) (i : nat) : radio := nth i (radios w) (reset_radio true).
 
@@ -26,12 +30,12 @@ Fixpoint set_nth_radio (l : list radio) (i : nat) (r : radio) : list radio :=
   end.
 
 Definition set_radio (w : world) (i : nat) (r : radio) : world :=
-  mkWorld (set_nth_radio (radios w) i r) (oracle w) (air w).
+  mkWorld (set_nth_radio (radios w) i r) (oracle w) (air w) (clock w).
 
 Definition next_fate (w : world) : fate * world :=
   match oracle w with
   | [] => (Delivered, w)
-  | f :: t => (f, mkWorld (radios w) t (air w))
+  | f :: t => (f, mkWorld (radios w) t (air w) (clock w))
   end.
 
 (* ---- on-air compatibility ---- *)
@@ -149,7 +153,7 @@ Fixpoint attempt (w : world) (si : nat) (e : txentry) (noack expects : bool) (fu
       let heard := match f with Delivered => hears_ack s | _ => false end in
       let '(rs', acked, apl, who) :=
           deliver s si (radios w1) 0 (tx_pid e) noack (tx_data e) (expects && heard) in
-      let w2 := mkWorld rs' (oracle w1) (air w1) in
+      let w2 := mkWorld rs' (oracle w1) (air w1) (clock w1) in
       if negb expects then (w2, true, made + 1, who)
       else if acked && heard then
         (* ACK received: TX_DS, and the ACK payload (if any) enters the PTX's RX FIFO *)
@@ -187,6 +191,7 @@ Definition exchange (w : world) (si : nat) : world :=
                           (if plos_cnt s1 <? 15 then plos_cnt s1 + 1 else 15) in
     mkWorld (radios (set_radio w1 si s2)) (oracle w1)
             (air w1 ++ [mkLog si (firstn (addr_width s) (addr_tx s)) (tx_data e) noack made ok who])
+            (clock w1)
   end.
 
 Fixpoint find_tx (rs : list radio) (j : nat) : option nat :=
@@ -204,12 +209,19 @@ Fixpoint settle (fuel : nat) (w : world) : world :=
            end
   end.
 
+Definition tick (w : world) (ns : N) : world :=
+  mkWorld (radios w) (oracle w) (air w) (clock w + ns).
+
 Definition w_spi (w : world) (i : nat) (mosi : list N) : world * list N :=
   let '(r', miso) := spi (get_radio w i) mosi in
-  (settle 8 (set_radio w i r'), miso).
+  (tick (settle 8 (set_radio w i r')) SPI_COST, miso).
+
+(* time.monotonic_ns() and time.sleep() of the MCU driving the radios *)
+Definition w_now (w : world) : world * N := (tick w NOW_COST, clock w + NOW_COST).
+Definition w_sleep (w : world) (ns : N) : world := tick w ns.
 
 Definition w_ce (w : world) (i : nat) (v : bool) : world :=
   settle 8 (set_radio w i (with_ce (get_radio w i) v)).
 
 Definition new_world (plus : list bool) (o : list fate) : world :=
-  mkWorld (map reset_radio plus) o [].
+  mkWorld (map reset_radio plus) o [] 0.
